@@ -15,7 +15,7 @@ RULE = (
     "and MPAS-like sources supplying dvEdge/dcEdge at radius 1 or 6371229 in their own edge numbering) x face- or "
     "node-centred data of rank 1-4 (float64/float32/int64/int32). Oracles: geodesic distances from vlib/sphere.py on "
     "the source positions, per-edge absolute differences over the edge's own two faces/nodes, gradient = difference / "
-    "centre distance. Non-trivial = grid has boundary edges or supplied distances or data has leading dims; distinct by "
+    "centre distance. Topology-array grids carry Cartesian node coordinates at radius 6371229 in half of the cases. Non-trivial = grid has boundary edges or supplied distances or data has leading dims; distinct by "
     "case hash."
 )
 ASSUMPTIONS = [
